@@ -77,6 +77,11 @@ type serverConn struct {
 	// channel.
 	writeStop chan struct{}
 
+	// writeDone is closed when the write loop has returned, which it also does
+	// on its own when a write to the peer fails. From then on nothing drains
+	// writer, so anything that queues a frame has to stop waiting for room.
+	writeDone chan struct{}
+
 	// handlerDone carries a stream back to the stream loop once its handler has
 	// returned. Handlers run on their own goroutines so that a slow request
 	// does not hold up the other streams on the connection, but everything the
@@ -182,7 +187,8 @@ func (sc *serverConn) Serve() error {
 	}()
 
 	// writeDone lets the teardown wait for queued frames to reach the socket.
-	writeDone := make(chan struct{})
+	sc.writeDone = make(chan struct{})
+	writeDone := sc.writeDone
 
 	go func() {
 		defer close(writeDone)
@@ -1805,6 +1811,11 @@ func (sc *serverConn) write(fr *FrameHeader) {
 	select {
 	case sc.writer <- fr:
 	case <-sc.writeStop:
+		ReleaseFrameHeader(fr)
+	case <-sc.writeDone:
+		// The write loop stopped because writing to the peer failed. With the
+		// queue full, waiting for room would park the read loop or the stream
+		// loop here for good, and ServeConn would never return.
 		ReleaseFrameHeader(fr)
 	}
 }
